@@ -177,6 +177,25 @@ def auto_accept(body, kind, bb):
                 for d in body.defs().get(p['l'], []):
                     if d[2] == 'assign' and d[3]['k'] == 'bin' and const_int(d[3]['l']) is not None and const_int(d[3]['r']) is not None:
                         return 'constant index into a fixed-size array'
+                    # `(x & MASK) as usize < N` with MASK < N (table lookups by a masked byte)
+                    if d[2] == 'assign' and d[3]['k'] == 'bin' and d[3]['op'] == 'Lt' and const_int(d[3]['r']) is not None:
+                        n_ = const_int(d[3]['r'])
+                        q = op_place(d[3]['l'])
+                        for _ in range(6):
+                            if q is None or q.get('p'):
+                                break
+                            ds = [x for x in body.defs().get(q['l'], []) if x[2] == 'assign']
+                            if len(ds) != 1:
+                                break
+                            rv2 = ds[0][3]
+                            if rv2['k'] == 'use' or (rv2['k'] == 'cast' and rv2.get('cast') == 'IntToInt'):
+                                q = op_place(rv2['op'])
+                                continue
+                            if rv2['k'] == 'bin' and rv2['op'] == 'BitAnd':
+                                m_ = const_int(rv2['r']) if const_int(rv2['r']) is not None else const_int(rv2['l'])
+                                if m_ is not None and 0 <= m_ < n_:
+                                    return 'index masked with %d into an array of %d' % (m_, n_)
+                            break
         return None
     if kind == 'split_at':
         no = origin(body, t['args'][1])
@@ -192,8 +211,10 @@ def run(ctx):
     f = ctx.f
     scope = [b for b in f.body_list if in_scope(b) and not b.j.get('from_expansion')]
     ctx.floor('PANIC', 'functions on the decode path', len(scope), 120)
-    used = {}
     nsites = 0
+    matcher = ReviewedMatcher('C04', PANIC_REVIEWED, {short_fn(fn_label(b)) for b in scope})
+    ctx.panic_matcher = matcher
+    used = matcher.used
     for b in scope:
         ctx.touched(b, len(b.calls()))
         for kind, bb, loc_, txt in panic_sites(b):
@@ -202,11 +223,10 @@ def run(ctx):
             fl = fn_label(b)
             if why is None:
                 key = (short_fn(fl), kind)
-                if key in PANIC_REVIEWED and used.get(key, 0) < PANIC_REVIEWED[key][0]:
-                    cond = PANIC_CONDITIONS.get(key)
-                    if cond is None or cond(b, bb):
-                        used[key] = used.get(key, 0) + 1
-                        why = 'reviewed: ' + PANIC_REVIEWED[key][1] + (' [structural condition re-checked]' if cond else '')
+                cond = PANIC_CONDITIONS.get(key)
+                why = matcher.match(b, short_fn(fl), kind, bb, cond)
+                if why and cond:
+                    why += ' [structural condition re-checked]'
             ordn = used.get((short_fn(fl), kind), 0)
             ctx.ob('PANIC', '%s/%s#%d' % (fl, kind, ordn if why and why.startswith('reviewed') else sum(1 for k2, bb2, _, _ in panic_sites(b) if k2 == kind and bb2 < bb)),
                    why is not None, loc_,
